@@ -56,7 +56,7 @@ Definition c18_machine (prog : sx) : sx :=
   match dlist dinstr prog with
   | None => bad_case
   | Some p =>
-      let es := snd (run ops sl_id (init (R:=R)) p) in
+      let es := snd (machine_run ops sl_id (machine_init (R:=R)) p) in
       if existsb is_bad es then bad_case else SL [SZ 0%Z; slist sevent es]
   end.
 End Run.
